@@ -3,6 +3,7 @@ package dyntpl
 import (
 	"bytes"
 	"io"
+	"runtime"
 	"time"
 
 	"github.com/koykov/bytealg"
@@ -194,6 +195,9 @@ func (ctx *Ctx) SetBytes(key string, val []byte) *Ctx {
 // SetString sets string as static variable.
 func (ctx *Ctx) SetString(key, val string) *Ctx {
 	ctx.SetBytes(key, byteconv.S2B(val))
+	// S2B hides the string's data pointer from GC (uintptr in reflect.SliceHeader); keep the string alive
+	// until its bytes are copied.
+	runtime.KeepAlive(val)
 	return ctx
 }
 
@@ -245,7 +249,9 @@ func (ctx *Ctx) SetCounter(key string, val int) *Ctx {
 // * user.Bio.Birthday
 // * staticVar
 func (ctx *Ctx) Get(path string) any {
-	return ctx.get(byteconv.S2B(path))
+	v := ctx.get(byteconv.S2B(path))
+	runtime.KeepAlive(path)
+	return v
 }
 
 // GetCounter gets int counter value.
